@@ -53,7 +53,8 @@ def run(tier):
                 f.write(json.dumps(c) + "\n")
         p = vlib.run_cmd([bins["vh_lib"], "rolling", cpath, os.path.join(work, "t"), str(vlib.seed()), tier], timeout=1800)
         if p.returncode != 0:
-            raise vlib.ToolError("vh_lib rolling failed: " + p.stderr.decode()[-2000:])
+            vlib.harness_died(vd, "vh_lib rolling", p)
+            return vd.finish()
         summ = json.loads(p.stdout.decode().strip().splitlines()[-1])
         log(f"[c17] recorded {summ['events']} events in {summ['runs']} runs, {len(summ['files'])} shards")
 
